@@ -187,9 +187,10 @@ def newton(ctx):
   cmpr = Comparer()
   outer = m.func(MOD, 'matrix_inverse_pth_root')
   loops = _while_loops(m, outer)
-  inner = [l for l in loops if l[0] is not outer]
-  outerl = [l for l in loops if l[0] is outer]
-  if len(inner) != 1 or len(outerl) != 1 or inner[0][0] is not outerl[0][2]:
+  # the retry loop is the one whose body function encloses the other (Newton) loop; it may itself sit in a helper
+  pairs = [(o, i) for o in loops for i in loops if i[0] is o[2]]
+  inner, outerl = [p[1] for p in pairs], [p[0] for p in pairs]
+  if len(pairs) != 1 or len(loops) != 2:
     raise AnalysisError(f'matrix_inverse_pth_root: expected a retry while_loop whose body runs the Newton while_loop; found {[(a.short, b.short, c.short) for a, b, c in loops]}')
   _, condf, body = inner[0]
   _, ocond, ob = outerl[0]
